@@ -46,7 +46,7 @@ impl Clone for BadClone {
     }
 }
 
-#[unimock(api=KMock, unmock_with=[_, _, _, real_r, _, _, _, _, _, _, _, _, _, _, _, _, _])]
+#[unimock(api=KMock, unmock_with=[_, _, _, real_r, _, _, _, _, _, _, _, _, _, _, _, _, _, _])]
 pub trait K: Sized {
     /// base expectation: exactly one m(0)
     fn m(&self, x: u8) -> u32;
@@ -61,6 +61,8 @@ pub trait K: Sized {
         13
     }
     fn dbg(&self, x: BadDebug) -> u32;
+    /// always answered: a valid call never renders its arguments
+    fn dbg_ok(&self, x: BadDebug) -> u32;
     fn cl(&self) -> BadClone;
     fn nm(&self, x: u8) -> u32;
     fn o1(&self, x: u8) -> u32;
@@ -153,6 +155,8 @@ const ORIGINS: [Origin; 24] = [
     Origin::MatcherOrderedRaced,
 ];
 
+/// Set by the child of the guard topology before the mock is built: adds the `dbg_ok` clause.
+static WITH_DBG_OK: std::sync::atomic::AtomicBool = std::sync::atomic::AtomicBool::new(false);
 static RACE_ENTERED: std::sync::atomic::AtomicBool = std::sync::atomic::AtomicBool::new(false);
 static RACE_GO: std::sync::atomic::AtomicBool = std::sync::atomic::AtomicBool::new(false);
 
@@ -347,6 +351,9 @@ fn build(origin: Origin) -> Unimock {
         }
         _ => {}
     }
+    if WITH_DBG_OK.load(std::sync::atomic::Ordering::SeqCst) {
+        c.push(KMock::dbg_ok.each_call(matching!(_)).returns(8u32));
+    }
     Unimock::new(c)
 }
 
@@ -426,6 +433,9 @@ fn park_forever() -> ! {
 }
 
 fn child(origin: Origin, topo: Topo, met: bool) -> ! {
+    if topo == Topo::GuardUsesMocksWhileUnwinding {
+        WITH_DBG_OK.store(true, std::sync::atomic::Ordering::SeqCst);
+    }
     let foreign = matches!(topo, Topo::ForeignCreator | Topo::ForeignCreatorAndClone);
     let original = if foreign {
         std::thread::spawn(move || build(origin)).join().unwrap()
@@ -510,6 +520,9 @@ fn child(origin: Origin, topo: Topo, met: bool) -> ! {
                     // a perfectly valid call on a clone of the mock under test (`su`'s sibling `pong`
                     // style methods are not set up everywhere: use the base pattern, open-ended side)
                     let _ = self.0.m(0);
+                    // ... and a valid call whose argument cannot be rendered (its Debug panics):
+                    // an accepted call renders nothing
+                    let _ = self.0.dbg_ok(BadDebug);
                 }
             }
             let u = original;
